@@ -329,6 +329,10 @@ def a8_shared(ctx):
     from .C09 import d2_small_date
     from .C07 import n1_provenance
     d2_small_date(ctx)
+    # C07 N9 first: N1 falls back on its walks when the digits are not taken with chars().nth(); what N9 tabulates (grouping,
+    # sign and separator placement of the printed number) is also what the number reader has to read back
+    from .C07 import n9_assembly_table
+    n9_assembly_table(ctx)
     n1_provenance(ctx)
     # C07 N2: every printer hands format_number the configured separators - the ones the readers normalise with (C08 R3);
     # a printer that takes them from anywhere else prints numbers the reader does not read back
